@@ -369,7 +369,7 @@ def main(ctx):
         for auto in (False, True):
             cfg = {"lineup": lu, "seed": S + i, "dims": 2, "model": "gauss2", "ensemble": 1 + i % 2, "loss": ["minkowski", "minkowski_filtered", "msm", "minkowski", "gsl"][i],
                    "convergence_precision": 0 if i == 3 else None}
-            cells.append({"kind": "bfs", "cfg": cfg, "depth": depth if i < 2 or not ctx.quick else depth - 1, "auto": auto, "new_runs": list(NEW_RUNS) if i in (0, 1) else ["n:seed"]})
+            cells.append({"kind": "bfs", "cfg": cfg, "depth": (depth if i < 2 or not ctx.quick else depth - 1) + (1 if (not ctx.quick and i < 2) else 0), "auto": auto, "new_runs": list(NEW_RUNS) if i in (0, 1) else ["n:seed"]})
     # seed None (OS entropy): the restored object must still equal the saved one
     cells.append({"kind": "bfs", "cfg": {"lineup": lineups[0], "seed": None, "dims": 2, "model": "gauss2", "ensemble": 1}, "depth": 3, "auto": True, "new_runs": []})
     cells.append({"kind": "bfs", "cfg": {"lineup": lineups[2], "seed": None, "dims": 1, "model": "gauss2", "ensemble": 1}, "depth": 3, "auto": False, "new_runs": []})
